@@ -67,7 +67,7 @@ Fixpoint steps_ok (cfg : config) (done : list N) (prev : sobs) (acts : list acti
       && forallb (fun b => mem_N b (so_unlocked prev)
                            || sync_exempt cfg b
                            || match a with
-                              | Finish q _ =>
+                              | Finish q _ | FinishWait q =>
                                   N.eqb q 0 && match find_q 0 (so_queues prev) with
                                                | Some m => match qo_items m with
                                                            | t :: _ => mem_N b (t_mids t)
